@@ -89,8 +89,9 @@ func c17FieldVariants() map[string][]any {
 		return o
 	}
 	return map[string][]any{
-		"callback_uri":      {c17Delete, "", "/", "https://h", "https://h/", "https://h/cb", "%zz", "://", "https://app.test/logout"},
-		"logout":            {m(), m("path", "/"), m("path", "/callback"), m("path", "/logout", "redirect_uri", "https://idp.test/logout"), m("path", "/logout"), m("path", ""), m("redirect_uri", "https://idp.test/logout")},
+		"callback_uri":      {c17Delete, "", "/", "https://h", "https://h/", "https://h/cb", "%zz", "://", "https://app.test/logout", "https://h/cb%", ":cb", "https://h/?x#y", "/relative/cb"},
+		"logout":            {m(), m("path", "/"), m("path", "/callback"), m("path", "/logout", "redirect_uri", "https://idp.test/logout"), m("path", "/logout"), m("path", ""), m("redirect_uri", "https://idp.test/logout"),
+			m("path", "/logout%"), m("path", "%zz"), m("path", ":logout"), m("path", "/lo\x7fgout"), m("path", "/logout?x=1"), m("path", "/logout", "redirect_uri", "%zz"), m("path", "logout")},
 		"client_id":         {c17Delete, "", "a:b", "other"},
 		"client_secret":     {c17Delete, "", "s2"},
 		"client_secret_ref": {m(), m("name", "n"), m("name", "n", "namespace", "ns")},
